@@ -95,4 +95,222 @@ example :
     (a1.cbs, a2.cbs, a3.cbs, a4.cbs) =
       ([⟨1, .changed "c"⟩], [⟨1, .ambErr (.nack "e")⟩], [⟨1, .changed "c"⟩], []) := by decide
 
+/-! ### AmbientError / ResourceError exactly when the statement says -/
+
+theorem inv_run (es : List AEv) (a : Auth) (hi : AInv a) (hf : FreshRun a es) : AInv (Auth.run a es) := by
+  induction es generalizing a with
+  | nil => exact hi
+  | cons e es ih => exact ih _ (inv_step hi hf.1) hf.2
+
+/-- **C43, clause 3.** For every state and event: watcher `w` receives AmbientError(er) iff it watches a resource
+    with a cached value and (a) an update that is processed (from the active or a higher-priority server) rejects
+    that resource with an error string different from the one recorded by the previous rejection (DESIGN section 7
+    reading: the code de-duplicates by `Err.Error()`; see `rejected_duplicate_already_reported` below), or (b) a
+    stream fails before any response and no fallback server is tried, or (c) `w` is a new watcher and the last
+    update of the cached resource was NACKed. -/
+theorem ambient_iff_cached_and_rejected_or_stream_failed (a : Auth) (e : AEv) (w : Nat) (er : Err) :
+    (⟨w, .ambErr er⟩ : Cb) ∈ (a.step e).cbs ↔
+      (∃ p ∈ a.res, w ∈ p.2.watchers ∧ p.2.cache.isSome = true ∧
+        ((∃ srv gen ver es t, e = .update srv gen p.1.typ ver es ∧ (revert a srv).2.2 = true ∧
+            entLookup es p.1.name = some (.bad t) ∧ er = .nack t ∧ p.2.err.map (·.1) ≠ some t) ∨
+         (∃ srv, e = .failure srv false ∧ er = .conn ∧ (uncachedWatch a = false ∨ nextServer a srv = none)))) ∨
+      (∃ k r t v, e = .watch k w ∧ lookup a.res k = some r ∧ r.cache.isSome = true ∧ r.status = .nacked ∧
+          r.err = some (t, v) ∧ er = .nack t) := by
+  cases e with
+  | update srv gen typ ver es =>
+    simp only [Auth.step, handleUpdate_cbs_iff, amb_mem_updKinds]
+    constructor
+    · rintro ⟨hc, p, hp, hw, ht, hcache, t, he, rfl, hd⟩
+      exact Or.inl ⟨p, hp, hw, hcache, Or.inl ⟨srv, gen, ver, es, t, by rw [ht], hc, he, rfl, hd⟩⟩
+    · rintro (⟨p, hp, hw, hcache, ⟨srv', gen', ver', es', t, heq, hc, he, rfl, hd⟩ | ⟨_, h, _⟩⟩ | ⟨_, _, _, _, h, _⟩)
+      · simp only [AEv.update.injEq] at heq
+        obtain ⟨rfl, rfl, rfl, rfl, rfl⟩ := heq
+        exact ⟨hc, p, hp, hw, rfl, hcache, t, he, rfl, hd⟩
+      · simp at h
+      · simp at h
+  | dne k =>
+    simp only [Auth.step, handleDNE, List.mem_flatMap, mem_bcast]
+    constructor
+    · rintro ⟨p, _, _, hk⟩; split at hk <;> simp at hk
+    · rintro (⟨_, _, _, _, ⟨_, _, _, _, _, h, _⟩ | ⟨_, h, _⟩⟩ | ⟨_, _, _, _, h, _⟩) <;> simp at h
+  | failure srv after =>
+    simp only [Auth.step, handleFailure_cbs]
+    constructor
+    · intro h
+      split at h
+      · rename_i hc
+        obtain ⟨p, hp, hw, hcache, rfl⟩ := amb_mem_propagate.mp h
+        exact Or.inl ⟨p, hp, hw, hcache, Or.inr ⟨srv, by rw [hc.1], rfl, hc.2⟩⟩
+      · simp at h
+    · rintro (⟨p, hp, hw, hcache, ⟨_, _, _, _, _, h, _⟩ | ⟨srv', heq, rfl, hc⟩⟩ | ⟨_, _, _, _, h, _⟩)
+      · simp at h
+      · simp only [AEv.failure.injEq] at heq
+        obtain ⟨rfl, rfl⟩ := heq
+        rw [if_pos ⟨rfl, hc⟩]
+        exact amb_mem_propagate.mpr ⟨p, hp, hw, hcache, rfl⟩
+      · simp at h
+  | watch k w' =>
+    simp only [Auth.step, watch]
+    constructor
+    · intro h
+      split at h
+      · simp [initialCbs, initialKinds, newRState] at h
+      · rename_i r hl
+        simp only [initialCbs, List.mem_map, Cb.mk.injEq] at h
+        obtain ⟨kk, hkk, rfl, rfl⟩ := h
+        obtain ⟨hc, hs, t, v, he, rfl⟩ := mem_initialKinds_amb.mp hkk
+        exact Or.inr ⟨k, r, t, v, rfl, hl, hc, hs, he, rfl⟩
+    · rintro (⟨_, _, _, _, ⟨_, _, _, _, _, h, _⟩ | ⟨_, h, _⟩⟩ | ⟨k', r, t, v, heq, hl, hc, hs, he, rfl⟩)
+      · simp at h
+      · simp at h
+      · simp only [AEv.watch.injEq] at heq
+        obtain ⟨rfl, rfl⟩ := heq
+        simp only [hl, initialCbs, List.mem_map, Cb.mk.injEq]
+        exact ⟨_, mem_initialKinds_amb.mpr ⟨hc, hs, t, v, he, rfl⟩, trivial, rfl⟩
+  | unwatch k w' =>
+    simp only [Auth.step, unwatch]
+    constructor
+    · intro h
+      split at h
+      · simp at h
+      · split at h
+        · simp at h
+        · split at h <;> simp at h
+    · rintro (⟨_, _, _, _, ⟨_, _, _, _, _, h, _⟩ | ⟨_, h, _⟩⟩ | ⟨_, _, _, _, h, _⟩) <;> simp at h
+
+
+/-- **C43, clause 4.** For every state and event: watcher `w` receives ResourceError(er) iff it watches a resource
+    and (a) a processed update rejects it while nothing is cached (same de-duplication), (b) a processed
+    state-of-the-world response of a type with AllResourcesRequiredInSotW omits it while it is cached and the
+    server does not have ignore_resource_deletion, (c) its watch expiry timer fired, (d) a stream fails before any
+    response, nothing is cached and no fallback server is tried, or (e) `w` is a new watcher of a resource that is
+    NACKed without cache or marked non-existent. -/
+theorem resource_error_iff_no_valid (a : Auth) (e : AEv) (w : Nat) (er : Err) :
+    (⟨w, .resErr er⟩ : Cb) ∈ (a.step e).cbs ↔
+      (∃ p ∈ a.res, w ∈ p.2.watchers ∧
+        ((∃ srv gen ver es t, e = .update srv gen p.1.typ ver es ∧ (revert a srv).2.2 = true ∧ p.2.cache = none ∧
+            entLookup es p.1.name = some (.bad t) ∧ er = .nack t ∧ p.2.err.map (·.1) ≠ some t) ∨
+         (∃ srv gen ver es, e = .update srv gen p.1.typ ver es ∧ (revert a srv).2.2 = true ∧ er = .notFound ∧
+            entLookup es p.1.name = none ∧ sotw p.1.typ = true ∧ p.2.cache.isSome = true ∧
+            p.2.status ≠ .notExist ∧ ignOf a srv = false) ∨
+         (e = .dne p.1 ∧ er = .notFound) ∨
+         (∃ srv, e = .failure srv false ∧ er = .conn ∧ p.2.cache = none ∧
+            (uncachedWatch a = false ∨ nextServer a srv = none)))) ∨
+      (∃ k r, e = .watch k w ∧ lookup a.res k = some r ∧
+        ((r.status = .nacked ∧ r.cache = none ∧ ∃ t v, r.err = some (t, v) ∧ er = .nack t) ∨
+         (r.status = .notExist ∧ er = .notFound))) := by
+  cases e with
+  | update srv gen typ ver es =>
+    simp only [Auth.step, handleUpdate_cbs_iff, res_mem_updKinds]
+    constructor
+    · rintro ⟨hc, p, hp, hw, ht, ⟨hcache, t, he, rfl, hd⟩ | ⟨rfl, he, hs, hcache, hst, hi⟩⟩
+      · exact Or.inl ⟨p, hp, hw, Or.inl ⟨srv, gen, ver, es, t, by rw [ht], hc, hcache, he, rfl, hd⟩⟩
+      · exact Or.inl ⟨p, hp, hw, Or.inr (Or.inl ⟨srv, gen, ver, es, by rw [ht], hc, rfl, he, by rw [ht]; exact hs, hcache, hst, hi⟩)⟩
+    · rintro (⟨p, hp, hw, ⟨srv', gen', ver', es', t, heq, hc, hcache, he, rfl, hd⟩ |
+          ⟨srv', gen', ver', es', heq, hc, rfl, he, hs, hcache, hst, hi⟩ | ⟨h, _⟩ | ⟨_, h, _⟩⟩ | ⟨_, _, h, _⟩)
+      · simp only [AEv.update.injEq] at heq
+        obtain ⟨rfl, rfl, rfl, rfl, rfl⟩ := heq
+        exact ⟨hc, p, hp, hw, rfl, Or.inl ⟨hcache, t, he, rfl, hd⟩⟩
+      · simp only [AEv.update.injEq] at heq
+        obtain ⟨rfl, rfl, rfl, rfl, rfl⟩ := heq
+        exact ⟨hc, p, hp, hw, rfl, Or.inr ⟨rfl, he, hs, hcache, hst, hi⟩⟩
+      · simp at h
+      · simp at h
+      · simp at h
+  | dne k =>
+    simp only [Auth.step, handleDNE, List.mem_flatMap, mem_bcast]
+    constructor
+    · rintro ⟨p, hp, hw, hk⟩
+      split at hk
+      · rename_i hpk
+        simp only [List.mem_singleton, CbKind.resErr.injEq] at hk
+        exact Or.inl ⟨p, hp, hw, Or.inr (Or.inr (Or.inl ⟨by rw [hpk], hk⟩))⟩
+      · simp at hk
+    · rintro (⟨p, hp, hw, ⟨_, _, _, _, _, h, _⟩ | ⟨_, _, _, _, h, _⟩ | ⟨heq, rfl⟩ | ⟨_, h, _⟩⟩ | ⟨_, _, h, _⟩)
+      · simp at h
+      · simp at h
+      · simp only [AEv.dne.injEq] at heq
+        exact ⟨p, hp, hw, by simp [heq]⟩
+      · simp at h
+      · simp at h
+  | failure srv after =>
+    simp only [Auth.step, handleFailure_cbs]
+    constructor
+    · intro h
+      split at h
+      · rename_i hc
+        obtain ⟨p, hp, hw, hcache, rfl⟩ := res_mem_propagate.mp h
+        exact Or.inl ⟨p, hp, hw, Or.inr (Or.inr (Or.inr ⟨srv, by rw [hc.1], rfl, hcache, hc.2⟩))⟩
+      · simp at h
+    · rintro (⟨p, hp, hw, ⟨_, _, _, _, _, h, _⟩ | ⟨_, _, _, _, h, _⟩ | ⟨h, _⟩ | ⟨srv', heq, rfl, hcache, hc⟩⟩ | ⟨_, _, h, _⟩)
+      · simp at h
+      · simp at h
+      · simp at h
+      · simp only [AEv.failure.injEq] at heq
+        obtain ⟨rfl, rfl⟩ := heq
+        rw [if_pos ⟨rfl, hc⟩]
+        exact res_mem_propagate.mpr ⟨p, hp, hw, hcache, rfl⟩
+      · simp at h
+  | watch k w' =>
+    simp only [Auth.step, watch]
+    constructor
+    · intro h
+      split at h
+      · simp [initialCbs, initialKinds, newRState] at h
+      · rename_i r hl
+        simp only [initialCbs, List.mem_map, Cb.mk.injEq] at h
+        obtain ⟨kk, hkk, rfl, rfl⟩ := h
+        exact Or.inr ⟨k, r, rfl, hl, mem_initialKinds_res.mp hkk⟩
+    · rintro (⟨_, _, _, ⟨_, _, _, _, _, h, _⟩ | ⟨_, _, _, _, h, _⟩ | ⟨h, _⟩ | ⟨_, h, _⟩⟩ | ⟨k', r, heq, hl, hcase⟩)
+      · simp at h
+      · simp at h
+      · simp at h
+      · simp at h
+      · simp only [AEv.watch.injEq] at heq
+        obtain ⟨rfl, rfl⟩ := heq
+        simp only [hl, initialCbs, List.mem_map, Cb.mk.injEq]
+        exact ⟨_, mem_initialKinds_res.mpr hcase, trivial, rfl⟩
+  | unwatch k w' =>
+    simp only [Auth.step, unwatch]
+    constructor
+    · intro h
+      split at h
+      · simp at h
+      · split at h
+        · simp at h
+        · split at h <;> simp at h
+    · rintro (⟨_, _, _, ⟨_, _, _, _, _, h, _⟩ | ⟨_, _, _, _, h, _⟩ | ⟨h, _⟩ | ⟨_, h, _⟩⟩ | ⟨_, _, h, _⟩) <;> simp at h
+
+
+/-- **C43, clauses 3+4 (which callback).** In every reachable state: after ResourceError the watcher's resource has
+    no cached value ("no valid resource exists"), after AmbientError it still has one. -/
+theorem error_kind_matches_cache (n : Nat) (ign : List Bool) (hist : List AEv) (hf : FreshRun (Auth.init n ign) hist)
+    (e : AEv) (w : Nat) (er : Err) :
+    let a := Auth.run (Auth.init n ign) hist
+    ((⟨w, .resErr er⟩ : Cb) ∈ (a.step e).cbs → ∃ p ∈ (a.step e).auth.res, w ∈ p.2.watchers ∧ p.2.cache = none) ∧
+    ((⟨w, .ambErr er⟩ : Cb) ∈ (a.step e).cbs → ∃ p ∈ (a.step e).auth.res, w ∈ p.2.watchers ∧ p.2.cache.isSome = true) :=
+  error_step (inv_run hist _ (inv_init n ign) hf)
+
+/-- the per-watcher records along a history -/
+def ghostRun : Auth → (Nat → WG) → List AEv → (Nat → WG)
+  | _, G, [] => G
+  | a, G, e :: es => ghostRun (a.step e).auth (ghostStep G e (a.step e).cbs) es
+
+theorem agree_run (es : List AEv) (a : Auth) (G : Nat → WG) (hi : AInv a) (hg : Agree a G) (hf : FreshRun a es) :
+    Agree (Auth.run a es) (ghostRun a G es) := by
+  induction es generalizing a G with
+  | nil => exact hg
+  | cons e es ih => exact ih _ _ (inv_step hi hf.1) (ghost_step hi hg hf.1).2 hf.2
+
+/-- **C43, clause 3, the de-duplication reading.** In every reachable state, if a resource's recorded error is
+    `t` (so that a further rejection with the same error string is NOT re-delivered), then every watcher of the
+    resource has already been told exactly this error: its last NACK callback carried `t` and it received no
+    ResourceChanged since. Also: what each watcher holds is exactly the cached value. -/
+theorem rejected_duplicate_already_reported (n : Nat) (ign : List Bool) (hist : List AEv)
+    (hf : FreshRun (Auth.init n ign) hist) :
+    ∀ p ∈ (Auth.run (Auth.init n ign) hist).res, ∀ w ∈ p.2.watchers,
+      (ghostRun (Auth.init n ign) (fun _ => {}) hist w).holds = p.2.cache ∧
+      ∀ t v, p.2.err = some (t, v) → (ghostRun (Auth.init n ign) (fun _ => {}) hist w).nack = some t :=
+  agree_run hist _ _ (inv_init n ign) (by intro p hp; simp [Auth.init] at hp) hf
+
 end GrpcProofs.C43
